@@ -60,6 +60,7 @@ EXPECT = {
     'OV1': [('FixtureLint::LengthOk', 'product@')],
     'NB1': [('FixtureLint::IsNan', 's/t')],
     'RW1': [('FixtureLint::Canon', "replace(b'\\xc2\\xb0')"), ('FixtureLint::Canon', 'replace(b"\'\'")')],
+    'ZQ1': [('FixtureLint::Dratio', 'tx/ty')],
     'CP1': [('FixtureLint::Pad', 'easting/northing')],
     'X7r': [('FixtureShared::HalfFilled', 'alpha_')],
     'K7': [('FixtureRaster::probe', 'B1 filepos column')],
@@ -134,6 +135,9 @@ def run_controls(rules):
         elif r == 'RW1':
             from .rules import rewrite
             res = rewrite.rule_RW1(fx, None)[0]
+        elif r == 'ZQ1':
+            from .rules import lint
+            res = lint.rule_ZQ1(fx, None)[0]
         elif r == 'CP1':
             from .rules import lint
             res = lint.rule_CP1(fx, None)[0]
